@@ -123,7 +123,20 @@ function runJob (job) {
           let structured = null
           const user = mode === 'handler'
             ? (err, cs) => {
-                structured = cs.map((c) => {
+                // a handler may use the whole CallSite API: nothing of it may be missing or throw
+                for (const c of cs) {
+                  for (const m of ['getThis', 'getTypeName', 'getFunction', 'getFunctionName', 'getMethodName', 'getFileName',
+                    'getLineNumber', 'getColumnNumber', 'getEvalOrigin', 'isToplevel', 'isEval', 'isNative', 'isConstructor',
+                    'isAsync', 'isPromiseAll', 'getPromiseIndex', 'getScriptNameOrSourceURL', 'getScriptHash',
+                    'getEnclosingColumnNumber', 'getEnclosingLineNumber', 'getPosition', 'toString']) c[m]()
+                }
+                structured = []
+                for (const c of cs) {
+                  // what a handler that prints the call site itself shows
+                  const t = frameOfLine('at ' + String(c))
+                  if (typeof t.path === 'string' && isMine(t.path)) structured.push({ path: t.path, line: t.line, col: t.col, printed: true })
+                }
+                structured = structured.concat(cs.map((c) => {
                   const f = { path: c.getFileName(), line: c.getLineNumber(), col: c.getColumnNumber() }
                   // a frame of eval'd code has no file name of its own: its position in the file is its eval origin
                   if (typeof f.path !== 'string' && c.isEval && c.isEval()) {
@@ -131,7 +144,7 @@ function runJob (job) {
                     if (o.eval) return { path: o.path, line: o.line, col: o.col, eval: true }
                   }
                   return f
-                })
+                }))
                 return 'handled'
               }
             : undefined
